@@ -1,7 +1,7 @@
 """The property checks: which tasks, which obligations, which assumptions (DESIGN.md section 8)."""
 from props.common import Spec
 from spec import drafts
-from contracts import tasks_keywords, tasks_core
+from contracts import tasks_keywords, tasks_core, tasks_errors
 
 T_Q = 10000      # per-obligation solver budget (ms): quick
 T_T = 60000      # thorough
@@ -260,17 +260,17 @@ class C06(Spec):
         "meta-lemma (paper): Loc(e, I, S) for all errors by induction over the schema from: keyword structure (path elements), descend (prepends exactly what it is given), iter_errors (_set fills unset fields only, prepends the keyword except for `if`/`$ref`), _Error.__init__ (parent links)",
         "collections.deque: appendleft/extend/extendleft(reversed(q)) == q ++ self (assumed contract)",
     ]
-    assumptions = ["absolute_path / absolute_schema_path / json_path and the parent links are checked by the bounded stand-in only (executable Loc on the real error objects over the directed pools), labelled bounded",
+    assumptions = ["absolute_path / absolute_schema_path are proved to be parent's absolute path ++ own relative path, json_path to be the rendering of the absolute path (integers as [i], names as .name) under the precondition that path elements are ints or strs; that `parent` is the error whose context holds the error is checked by the bounded stand-in only",
                    "documented exceptions of the property (draft-3 required, propertyNames, false schema) are written into the expected structures"]
     explanation = "Every applicator's descend call is proved to carry the instance index/key and schema index/key of the element it descends into; descend prepends exactly those; iter_errors fills keyword/value/instance/schema only where unset and prepends the keyword; _set is proved to assign unset fields only."
 
     def tasks(self, root, tier):
         return (tasks_keywords.keyword_tasks(root, _tmo(tier)) +
                 tasks_core.core_tasks(root, 2 * _tmo(tier), which=("iter_errors", "descend")) +
-                [tasks_core.CoreTask(root, 7, "err_set", _tmo(tier))])
+                [tasks_core.CoreTask(root, 7, "err_set", _tmo(tier))] + tasks_errors.error_path_tasks(root, _tmo(tier)))
 
     def select(self, ob, r):
-        return "/F/structure" in ob["name"] or "err_set" in r["task"] or (ob["kind"] == "P" and "descend" in ob["name"])
+        return "/F/structure" in ob["name"] or "err_set" in r["task"] or r["task"].startswith("errors:") or (ob["kind"] == "P" and "descend" in ob["name"])
 
     def failure_kinds(self):
         return ("F",)
@@ -287,6 +287,9 @@ class C06(Spec):
                 r = driver.rt_call("pyvc.rt_kw", {"cmd": "search", "mode": "errors", "root": root, "draft": d, "keyword": k, "limit": 1}, root, timeout=3000)
                 tried += r["tried"]
                 fails += r["failures"]
+        r = driver.rt_call("pyvc.rt_kw", {"cmd": "search_nested", "root": root, "limit": 1}, root, timeout=600)
+        out.append({"name": "Loc-on-nested-errors", "scope": "5 inner schemas x 5-6 wrappers of depth 3-5 with pairwise distinct path elements x 4 drafts: error multiset, absolute paths, parent links, json_path",
+                    "cases": r["tried"], "failures": r["failures"], "replay_kind": "kw", "label": "bounded (not counted as proof)"})
         out.append({"name": "Loc-on-real-errors", "scope": "directed pools (about %d value x sibling x instance cases per keyword) x %d keywords x 4 drafts; every error incl. context: absolute paths, parent links, json_path, navigation" % (60 * 50, len(kws)),
                     "cases": tried, "failures": fails, "replay_kind": "kw", "label": "bounded (not counted as proof)"})
         return out
